@@ -161,6 +161,13 @@ var vC18Programs = []struct {
 	{`(def o (package "out" (def in (package "inn" (def Kit 9001))))) {o.in = (package "evil" (def Kit 9002))}`, -1},
 	{`(def o (package "out" (def in (package "inn" (def Kit 9001))))) (set o.in 9002)`, -1},
 	{`(def o (package "out" (def In (package "inn" (def Kit 9001))))) (+ 0 o.In.Kit)`, 1},
+	// a member name that is also bound in an enclosing package or globally resolves to the member of the package the path names
+	{`(def Limit 9002) (def lib (package "lib" (def Limit 9001))) (+ 0 lib.Limit)`, 1},
+	{`(def lib (package "lib" (def Limit 9002) (def Sub (package "sub" (def Limit 9001))))) (+ 0 lib.Sub.Limit)`, 1},
+	{`(def lib (package "lib" (def Limit 9001) (def Sub (package "sub" (def Limit 9002))))) (+ 0 lib.Limit)`, 1},
+	{`(def lib (package "lib" (def Limit 5) (def Sub (package "sub" (def Limit 6) (defn Get [] Limit))))) (set lib.Sub.Limit 9001) (lib.Sub.Get)`, 1},
+	{`(def lib (package "lib" (def Limit 9001) (defn Get [] Limit) (def Sub (package "sub" (def Limit 6))))) (set lib.Sub.Limit 7) (lib.Get)`, 1},
+	{`(def Level 9001) (def lib (package "lib" (def Level 5))) (set lib.Level 6) (+ 0 Level)`, 1},
 }
 
 func vh_C18_programs() {
